@@ -42,6 +42,9 @@ type Program struct {
 	BuildTags []string
 	GOARCH    string
 
+	aliases   []string
+	shortName map[*ssa.Function]string // baseline short name of renamed functions
+
 	cellCache      map[*ssa.Function]map[*ssa.Alloc]*cellInfo
 	allocNameCache map[*ssa.Alloc]string
 }
@@ -120,14 +123,54 @@ func Load(o LoadOpts) (*Program, error) {
 		p.Files = append(p.Files, filepath.Base(f))
 	}
 	sort.Strings(p.Files)
-	p.indexFuncs()
+	base := loadBaseline()
+	if base != nil {
+		p.computeFieldAliases(base)
+	}
+	p.indexFuncs(base)
 	return p, nil
 }
 
-func (p *Program) indexFuncs() {
+func (p *Program) indexFuncs(base *Baseline) {
 	p.Funcs = map[string]*ssa.Function{}
 	p.names = map[*ssa.Function]string{}
+	p.shortName = map[*ssa.Function]string{}
 	roles := p.closureRoles()
+	// first pass: current top-level names, to find renamed functions
+	rename := map[string]string{}
+	if base != nil {
+		cur := map[string]*ssa.Function{}
+		for _, m := range p.SSA.Members {
+			switch m := m.(type) {
+			case *ssa.Function:
+				if (m.Synthetic == "" || m.Name() == "init") && m.Blocks != nil {
+					cur[m.Name()] = m
+				}
+			case *ssa.Type:
+				for _, T := range []types.Type{m.Type(), types.NewPointer(m.Type())} {
+					ms := p.Prog.MethodSets.MethodSet(T)
+					for i := 0; i < ms.Len(); i++ {
+						fn := p.Prog.MethodValue(ms.At(i))
+						if fn == nil || fn.Synthetic != "" || fn.Pkg != p.SSA || fn.Blocks == nil {
+							continue
+						}
+						cur[fn.RelString(p.SSA.Pkg)] = fn
+					}
+				}
+			}
+		}
+		rename = p.funcAliases(base, cur)
+		for now, was := range rename {
+			_, short := recvKey(was)
+			p.shortName[cur[now]] = short
+		}
+	}
+	canon := func(n string) string {
+		if w, ok := rename[n]; ok {
+			return w
+		}
+		return n
+	}
 	var add func(fn *ssa.Function, name string)
 	add = func(fn *ssa.Function, name string) {
 		if fn == nil || fn.Blocks == nil {
@@ -172,7 +215,7 @@ func (p *Program) indexFuncs() {
 			if m.Synthetic != "" && m.Name() != "init" {
 				continue
 			}
-			add(m, m.Name())
+			add(m, canon(m.Name()))
 		case *ssa.Type:
 			for _, T := range []types.Type{m.Type(), types.NewPointer(m.Type())} {
 				ms := p.Prog.MethodSets.MethodSet(T)
@@ -185,11 +228,61 @@ func (p *Program) indexFuncs() {
 					if _, seen := p.names[fn]; seen {
 						continue
 					}
-					add(fn, fn.RelString(p.SSA.Pkg))
+					add(fn, canon(fn.RelString(p.SSA.Pkg)))
 				}
 			}
 		}
 	}
+}
+
+// singleUseRole: when the variable defined by id is used exactly once in the
+// file, and that use is as a call argument or as the callee of a go/defer
+// statement, the role of that use; "" otherwise.
+func (p *Program) singleUseRole(f *ast.File, id *ast.Ident) string {
+	obj := p.Pkg.TypesInfo.Defs[id]
+	if obj == nil {
+		return ""
+	}
+	uses := 0
+	role := ""
+	var stack []ast.Node
+	ast.Inspect(f, func(n ast.Node) bool {
+		if n == nil {
+			stack = stack[:len(stack)-1]
+			return true
+		}
+		if u, ok := n.(*ast.Ident); ok && p.Pkg.TypesInfo.Uses[u] == obj {
+			uses++
+			role = ""
+			if len(stack) > 0 {
+				if call, ok := stack[len(stack)-1].(*ast.CallExpr); ok {
+					if call.Fun == ast.Expr(u) {
+						if len(stack) > 1 {
+							switch stack[len(stack)-2].(type) {
+							case *ast.DeferStmt:
+								role = "defer"
+							case *ast.GoStmt:
+								role = "go"
+							}
+						}
+					} else {
+						switch fn := call.Fun.(type) {
+						case *ast.Ident:
+							role = "arg:" + fn.Name
+						case *ast.SelectorExpr:
+							role = "arg:" + fn.Sel.Name
+						}
+					}
+				}
+			}
+		}
+		stack = append(stack, n)
+		return true
+	})
+	if uses != 1 {
+		return ""
+	}
+	return role
 }
 
 // closureRoles gives every function literal a position-independent role: the
@@ -212,6 +305,12 @@ func (p *Program) closureRoles() map[*ast.FuncLit]string {
 							switch l := pn.Lhs[i].(type) {
 							case *ast.Ident:
 								roles[lit] = l.Name
+								// a literal that is only given a name in order to be
+								// passed on once ("beat := func(){…}; r.goFunc(beat)")
+								// has the role of that single use
+								if r2 := p.singleUseRole(f, l); r2 != "" {
+									roles[lit] = r2
+								}
 							case *ast.SelectorExpr:
 								roles[lit] = "field:" + l.Sel.Name
 							}
@@ -362,7 +461,7 @@ func (p *Program) LookupField(typ, field string) *types.Var {
 		return nil
 	}
 	for i := 0; i < st.NumFields(); i++ {
-		if st.Field(i).Name() == field {
+		if fieldDisplayName(st.Field(i)) == field {
 			return st.Field(i)
 		}
 	}
